@@ -63,8 +63,9 @@ def main(tier, replay=None):
         c.run([sc], "o%d" % i)
         return c
 
+    inproc = [sc for sc in scenarios if not sc["name"].startswith("e2e-")]
     with ThreadPoolExecutor(max_workers=12) as ex:
-        camps = list(ex.map(one, enumerate(scenarios)))
+        camps = list(ex.map(one, enumerate(inproc)))
     tags, events, acts, happened, hung = [], 0, {}, {}, 0
     for c in camps:
         tags += c.tags
@@ -73,6 +74,18 @@ def main(tier, replay=None):
             acts[k] = acts.get(k, 0) + v
         for k, v in c.happened.items():
             happened[k] = happened.get(k, 0) + v
+    # the same on the REAL daemon (teosd binary: bitcoin_cli.rs / chain_monitor.rs error handling behind the HTTP API)
+    import e2e
+    if replay:
+        e2e_scs = [sc for sc in scenarios if sc["name"].startswith("e2e-")]
+    else:
+        e2e_scs = e2e.scenarios(tier, random.Random(seed() * 15485863 + 11), PID)
+    e2e_stats = {}
+    if e2e_scs:
+        camp = e2e.campaign(os.path.join(wd, "e2e"), e2e_scs)
+        e2e_stats = camp.stats()
+        events += e2e_stats.get("teosd_events_validated", 0)
+        tags += camp.tags
     others = {}
     for t in tags:
         ev = t["event"]
@@ -86,7 +99,7 @@ def main(tier, replay=None):
             # the blocked request and the chain thread run concurrently here: only "nobody stays blocked" is judged from this
             # scenario (which thread's event an effect is attributed to depends on the schedule; see the concurrency checks)
             others[(t["prop"], t["what"])] = others.get((t["prop"], t["what"]), 0) + 1
-        elif t["prop"] == PID or t["what"] in ("conf.reachable",) or (t["prop"] in ("C01", "C02") and sname.startswith("outage")):
+        elif t["prop"] == PID or t["what"] in ("conf.reachable",) or (t["prop"] in ("C01", "C02") and sname.startswith(("outage", "e2e-outage"))):
             # a penalty that was not (re)submitted after the outage is this property's NoDrop clause
             verdict.disagree(t["what"], ev["act"], fam, "C12: %s at %s (scenario %s, trace %s line %d)" %
                              (t["what"], ev["act"], sname, t["trace"], t["line"]),
@@ -109,6 +122,7 @@ def main(tier, replay=None):
         "behaviour_observed_in_validated_traces": happened,
         "threads_left_blocked": acts.get("Hung", 0),
         "design_level": design,
+        "end_to_end_teosd_binary": e2e_stats,
         "tags_of_other_properties": {"%s.%s" % k: v for k, v in others.items()},
         "known_findings_hit": verdict.known_hits,
         "samples": [{"scenario": scenarios[0]["name"], "ops": scenarios[0]["ops"]}],
